@@ -17,6 +17,7 @@ type sizeBlock struct {
 	Pos  token.Pos
 	Arms []encArm
 	On   string
+	IfForm bool // oneof written as guarded type assertions instead of a type switch
 }
 
 type sizeModel struct {
@@ -32,6 +33,8 @@ type sizeWalker struct {
 	nVar  types.Object
 	opts  types.Object
 	funcs map[types.Object]*ast.FuncLit
+	// entryReturns: the map entry closure being analysed returns the entry's size instead of adding it to n
+	entryReturns bool
 }
 
 func (w *sizeWalker) isIdent(x ast.Expr, o types.Object) bool {
@@ -237,6 +240,16 @@ func (w *sizeWalker) exec(list []ast.Stmt) (Poly, error) {
 				}
 			}
 			return nil, und("nested if %s", nodeStr(t.Cond))
+		case *ast.ReturnStmt:
+			// the map entry closure hands its size back instead of adding it to n
+			if w.entryReturns && i == len(list)-1 && len(t.Results) == 1 {
+				p, err := w.poly(t.Results[0])
+				if err != nil {
+					return nil, err
+				}
+				return total.add(p), nil
+			}
+			return nil, und("statement %s", nodeStr(s))
 		case *ast.ExprStmt:
 			return nil, und("statement %s", nodeStr(s))
 		default:
@@ -412,6 +425,29 @@ func extractSize(m *model.Msg) (*sizeModel, error) {
 				sm.Blocks = append(sm.Blocks, &sizeBlock{Kind: "unknown", Str: "if(nonnil(x.unknownFields)){len(x.unknownFields)}", Pos: t.Pos()})
 			}
 		case *ast.IfStmt:
+			// a oneof member as `if v, ok := x.O.(*W); ok && v != nil { … }`: consecutive ones over the same oneof form one block
+			if onX, wrapper, vObj, isArm := oneofIfArm(w.e.info, t); isArm {
+				on, err := w.e.term(onX)
+				if err != nil {
+					return nil, wrapPos(m, t.Pos(), err)
+				}
+				arm := encArm{Wrapper: wrapper, Pos: t.Pos(), NilGuard: true}
+				saved := w.e
+				w.e = w.e.child()
+				w.e.set(vObj, "w")
+				p, err := w.exec(t.Body.List)
+				w.e = saved
+				if err != nil {
+					return nil, wrapPos(m, t.Pos(), err)
+				}
+				arm.Str = p.String()
+				if n := len(sm.Blocks); n > 0 && sm.Blocks[n-1].Kind == "oneof" && sm.Blocks[n-1].On == on && sm.Blocks[n-1].IfForm {
+					sm.Blocks[n-1].Arms = append(sm.Blocks[n-1].Arms, arm)
+				} else {
+					sm.Blocks = append(sm.Blocks, &sizeBlock{Kind: "oneof", On: on, Pos: t.Pos(), Arms: []encArm{arm}, IfForm: true})
+				}
+				continue
+			}
 			if t.Init != nil || t.Else != nil {
 				return nil, wrapPos(m, t.Pos(), und("top-level if form"))
 			}
@@ -534,6 +570,15 @@ func (w *sizeWalker) mapBlock(list []ast.Stmt) (Poly, error, bool) {
 	if len(params) != 2 {
 		return nil, und("map size closure must take (key, value)"), true
 	}
+	// the closure either adds the entry's size to n, or returns it (then every call site is `n += entry(k, v)`)
+	w.entryReturns = false
+	if fl.Type.Results != nil {
+		if len(fl.Type.Results.List) != 1 || len(fl.Type.Results.List[0].Names) > 1 || basicKind(info.TypeOf(fl.Type.Results.List[0].Type)) != types.Int {
+			return nil, und("map size closure result"), true
+		}
+		w.entryReturns = true
+	}
+	defer func() { w.entryReturns = false }()
 	// the sum does not depend on the visiting order: a single `for k, v := range C { entry(k, v) }` is enough
 	if rs, ok := list[1].(*ast.RangeStmt); ok {
 		coll, err := w.e.term(rs.X)
@@ -678,11 +723,23 @@ func (w *sizeWalker) mapBlock(list []ast.Stmt) (Poly, error, bool) {
 	return pAtom("sum(" + coll + "){" + entry.String() + "}"), nil, true
 }
 
+// isEntryCall: `entry(k, v)` for a closure that adds to n itself, `n += entry(k, v)` for one that returns the entry's size.
 func (w *sizeWalker) isEntryCall(s ast.Stmt, fn, k, v types.Object) bool {
-	es, ok := s.(*ast.ExprStmt)
-	if !ok {
+	var x ast.Expr
+	switch t := s.(type) {
+	case *ast.ExprStmt:
+		if w.entryReturns {
+			return false // the returned size would be dropped
+		}
+		x = t.X
+	case *ast.AssignStmt:
+		if !w.entryReturns || t.Tok != token.ADD_ASSIGN || len(t.Lhs) != 1 || len(t.Rhs) != 1 || !w.isIdent(t.Lhs[0], w.nVar) {
+			return false
+		}
+		x = t.Rhs[0]
+	default:
 		return false
 	}
-	call, ok := es.X.(*ast.CallExpr)
+	call, ok := ast.Unparen(x).(*ast.CallExpr)
 	return ok && w.isIdent(call.Fun, fn) && len(call.Args) == 2 && w.isIdent(call.Args[0], k) && w.isIdent(call.Args[1], v)
 }
